@@ -40,8 +40,14 @@ def run_schedules(task):
     b = product.build_product(level=task["level"], images=(("HH", None, 8, 3), ("HV", None, 8, 3), ("VV", None, 4, 2)), seed=task["seed"])
     url = tracefs.put_product(f"c19_{os.getpid()}_{task['seed']}", b.files)
     out = {"task": {k: v for k, v in task.items() if k != "scripts"}, "traces": []}
+    if task["scenario"] == "copy-memfs":
+        # a file system that hands out ONE file object per path (like fsspec's memory://): only the lock keeps two readers apart
+        tracefs.SHARED.add(tracefs.norm(url))
     try:
         tree = ceos_alos2.open_alos2(url, backend_options=dict(use_cache=False, records_per_chunk=2))
+        if task["scenario"] == "copy-memfs":
+            tree2 = pickle.loads(pickle.dumps(tree))  # copied BEFORE anything was loaded from the tree (open, ship to workers, load)
+            hh2 = tree2[f"imagery/{b.images[0]['group']}/data"]
         hh, hv, vv = (tree[f"imagery/{im['group']}/data"] for im in b.images)
         sc = task["scenario"]
         for script in task["scripts"]:
@@ -52,6 +58,8 @@ def run_schedules(task):
             elif sc == "pickled":
                 cp = pickle.loads(pickle.dumps(hh))
                 plan = {"t1": (hh, 0, [0, 1, 2, 3]), "t2": (cp, 0, [4, 5, 6, 7])}
+            elif sc == "copy-memfs":
+                plan = {"t1": (hh, 0, [0, 1, 2, 3]), "t2": (hh2, 0, [4, 5, 6, 7])}
             elif sc == "one-chunk":
                 plan = {"t1": (hh, 0, [0, 1]), "t2": (hv, 1, [6, 7])}
             else:  # three
@@ -82,6 +90,7 @@ def run_schedules(task):
             lines.append({"e": "end", "deadlock": bool(r["deadlock"])})
             out["traces"].append({"script": script, "lines": lines, "skipped": r["skipped"], "realised": r["realised"]})
     finally:
+        tracefs.SHARED.discard(tracefs.norm(url))
         tracefs.remove(url)
     return out
 
@@ -110,6 +119,9 @@ def body(chk):
         chk.tlc_stats(r)
         for v in r.violated:
             chk.violation(f"model:{cfg}:{v}", f"TLC: {v} violated in Loads ({cfg})", {"tlc": r.out[-3000:]})
+    rc = tlc.run("MC_Loads", "MC_Loads_copylock_bug", workers=4)
+    if "ServedIsWanted" not in rc.violated:
+        raise checklib.Machinery("non-vacuity: a copy with a lock of its own on a shared file object must break ServedIsWanted in the model")
     rb = tlc.run("MC_Loads", "MC_Loads_bug", workers=4)
     if "ServedIsWanted" not in rb.violated:
         raise checklib.Machinery("non-vacuity: TLC did not find the seek/seek/read counterexample with a shared handle and no lock")
@@ -119,11 +131,12 @@ def body(chk):
     all70 = [s for s in interleavings(["t1"] * 4, ["t2"] * 4)]
     tasks.append(dict(scenario="one-chunk", level="1.5", seed=chk.seed, scripts=all70[:35]))
     tasks.append(dict(scenario="one-chunk", level="1.1", seed=chk.seed + 1, scripts=all70[35:]))
-    for sc, cfg in (("diff", "MC_Loads_sim_diff"), ("same", "MC_Loads_sim_same"), ("pickled", "MC_Loads_sim_same"), ("three", "MC_Loads_sim_three")):
+    for sc, cfg in (("diff", "MC_Loads_sim_diff"), ("same", "MC_Loads_sim_same"), ("pickled", "MC_Loads_sim_same"), ("copy-memfs", "MC_Loads_sim_same"),
+                    ("three", "MC_Loads_sim_three")):
         scripts, rs = scripts_from_tlc(cfg, 40 if nq else 600, 40, chk.seed + len(tasks))
         chk.tlc_stats(rs)
         # the lock of a same-variable scenario serialises the model's behaviours: add adversarial scripts that TRY to interleave
-        if sc in ("same", "pickled"):
+        if sc in ("same", "pickled", "copy-memfs"):
             scripts += [s for s in itertools.islice(interleavings(["t1"] * 6, ["t2"] * 6), 0, 924, 23 if nq else 3)]
         for i in range(0, len(scripts), 20):
             tasks.append(dict(scenario=sc, level=("1.5", "1.1")[len(tasks) % 2], seed=chk.seed + len(tasks), scripts=scripts[i:i + 20]))
